@@ -296,6 +296,44 @@ pub fn general_contexts(rng: &mut Rng) -> String {
     s
 }
 
+/// a rule `A: C Opt…` whose tail is non-empty but nullable, reached in ONE closure along several
+/// paths with different lookaheads (`S: A 'x' | R0; R0: A 't0' | R1 't0'; …`); rules are declared in a
+/// random order, because which path reaches `A` first — and so whether a lookahead arrives after `A`
+/// was already expanded — depends on production numbers
+pub fn nullable_tail_family(rng: &mut Rng) -> String {
+    let nctx = rng.range(2, 4);
+    let ntail = rng.range(1, 2);
+    let mut rules: Vec<String> = Vec::new();
+    let tail: Vec<String> = (0..ntail).map(|j| format!("O{}", j)).collect();
+    rules.push(format!("A: C {};", tail.join(" ")));
+    for j in 0..ntail {
+        rules.push(if rng.chance(1, 2) { format!("O{}: | 'o{}';", j, j) } else { format!("O{}: 'o{}' | ;", j, j) });
+    }
+    rules.push(if rng.chance(1, 3) { "C: 'c' | 'c' 'c';".to_string() } else { "C: 'c';".to_string() });
+    for i in 0..nctx {
+        let head = if i + 1 == nctx || rng.chance(1, 2) { "A".to_string() } else { format!("R{}", i + 1) };
+        let alt2 = if i + 1 < nctx && rng.chance(1, 2) { format!(" | R{} 'u{}'", i + 1, i) } else { String::new() };
+        rules.push(format!("R{}: {} 't{}'{};", i, head, i, alt2));
+    }
+    let mut salts = vec!["R0".to_string()];
+    if rng.chance(2, 3) {
+        salts.push("A 'x'".to_string());
+    }
+    if nctx > 1 && rng.chance(1, 2) {
+        salts.push("R1 'q'".to_string());
+    }
+    for i in (1..salts.len()).rev() {
+        let j = rng.below(i + 1);
+        salts.swap(i, j);
+    }
+    rules.push(format!("S: {};", salts.join(" | ")));
+    for i in (1..rules.len()).rev() {
+        let j = rng.below(i + 1);
+        rules.swap(i, j);
+    }
+    format!("%start S\n%%\n{}\n", rules.join("\n"))
+}
+
 pub fn build(text: &str) -> Result<YaccGrammar<u32>, String> {
     YaccGrammar::new(YaccKind::Original(YaccOriginalActionKind::GenericParseTree), text)
         .map_err(|e| format!("{:?}", e.iter().map(|x| x.to_string()).collect::<Vec<_>>()))
